@@ -132,6 +132,13 @@ func (c *concRun) caller(tc *tctx, ops []Op) {
 			c.poll(tc)
 			c.w.setWindow(tc.id, false)
 			c.logEv(tc, event{Kind: "return", Op: idx, OpKind: op.Kind, Path: path, Content: content, Err: err != nil})
+		case "save":
+			// saving while others look up: Save ranges the map and reads the counter, both
+			// safe for concurrent use; what it writes must be loadable
+			file := slotFile(c.w.root, op.Slot) + fmt.Sprintf(".t%d", tc.id)
+			c.logEv(tc, event{Kind: "invoke", Op: idx, OpKind: op.Kind, Path: file})
+			err := c.impl.Save(file)
+			c.logEv(tc, event{Kind: "return", Op: idx, OpKind: op.Kind, Err: err != nil, File: file})
 		case "prepare":
 			var paths []string
 			for _, p := range op.Pkgs {
@@ -447,6 +454,18 @@ func (c *concRun) oracle(hist []event, stub []cw.LogLine) {
 			}
 		}
 		switch o.kind {
+		case "save":
+			if o.err {
+				out.Violate(P, "save-error", tag+": Save failed")
+				return
+			}
+			if b, err := os.ReadFile(o.path); err == nil {
+				if _, v := parseCacheFile(b); v == malformed {
+					out.Violate(P, "save-malformed", fmt.Sprintf("%s (concurrent with lookups) wrote a file that is not of the documented format: %q", tag, b))
+					return
+				}
+				out.Probe("concurrent_save_checked")
+			}
 		case "prepare":
 			if len(o.lists) != 1 {
 				out.Violate(P, "prepare-list-count", fmt.Sprintf("%s ran the listing command %d times", tag, len(o.lists)))
@@ -593,6 +612,8 @@ func kindName(k string) string {
 	switch k {
 	case "find", "find_unknown":
 		return "Find"
+	case "save":
+		return "Save"
 	}
 	return "Prepare"
 }
